@@ -177,6 +177,7 @@ Proof.
   - intros ((H1 & H2) & _). assert (k = 0 \/ k = 1 \/ k = 2 \/ k = 3) as [-> | [-> | [-> | ->]]] by lia; auto.
   - intros [<-|[<-|[<-|[<-|[]]]]]; (split; [lia|reflexivity]).
 Qed.
+Print Assumptions hx_members.
 Example c02_happy_network_all_decide_example : forall k, RefineNet.member hx_cfg hx_honest k ->
   exists j, Instance.i_term (RefineNet.n_inst (RefineNet.nrun hx_cfg (RefineNet.net0 hx_input) hx_acts) k) = Some j /\
             Instance.j_value j = [1; 2; 3].
@@ -215,3 +216,4 @@ Proof.
   destruct (T H1 H2 k Hk) as (_ & j & Ej & Ev). exists j. split; assumption.
 Qed.
 Transparent hx_acts RefineNet.nrun HappyLive.deliveredb.
+Print Assumptions c02_happy_network_all_decide_example.
